@@ -6,7 +6,7 @@
     requires
         last_index.log_index >= start_index,
         last_index.file_index <= old(file).contents().len(),
-        old(file).contents().len() < 0x2000_0000,
+        old(file).contents().len() < 0x1_0000_0000,
         last_index.log_index - start_index + count < 0x1_0000_0000_0000,
         // the bytes from the index entry on are records written by the store, followed by an end marker
         ok_stream(old(file).contents().skip(last_index.file_index as int)),
@@ -30,7 +30,7 @@
         first_rec(reader.view()) is None,
     invariant
         file.contents() == cts, cts == old(file).contents(), buffer@.len() == 1024, reader.wf(),
-        cts.len() < 0x2000_0000, count > 0, c < count, msg_count == last_index.log_index - start_index,
+        cts.len() < 0x1_0000_0000, count > 0, c < count, msg_count == last_index.log_index - start_index,
         msg_count + count < 0x1_0000_0000_0000,
         f0 == last_index.file_index, s0 == cts.skip(f0),
         f0 <= data_cursor, data_cursor + reader.view().len() == file.pos(), file.pos() <= cts.len(),
@@ -96,7 +96,7 @@
     let ghost v_in = reader.view();
     let ghost p_in = file.pos() as int;
     let ghost dc_in = data_cursor as int;
-@@ LogInnerManager::move_to_index_by_count before_return 2
+@@ LogInnerManager::move_to_index_by_count before_return@loop1 1
     proof {
         // end of file reached with nothing buffered that could be an end marker: impossible for a terminated stream
         let r = cts.skip(data_cursor as int);
@@ -115,7 +115,7 @@
     }
 @@ LogInnerManager::move_to_index_by_count loop 2
     invariant
-        file.contents() == cts, cts == old(file).contents(), reader.wf(), cts.len() < 0x2000_0000, count > 0, c < count,
+        file.contents() == cts, cts == old(file).contents(), reader.wf(), cts.len() < 0x1_0000_0000, count > 0, c < count,
         msg_count == last_index.log_index - start_index, msg_count + count < 0x1_0000_0000_0000,
         f0 == last_index.file_index, s0 == cts.skip(f0),
         f0 <= data_cursor, data_cursor + reader.view().len() == file.pos(), file.pos() <= cts.len(),
@@ -142,7 +142,7 @@
         assert(r.take(reader.view().len() as int) =~= reader.view());
         lemma_view_pre(r, reader.view().len() as int);
     }
-@@ LogInnerManager::move_to_index_by_count before_return 3
+@@ LogInnerManager::move_to_index_by_count before_return@loop2 1
     proof {
         assert(scan(cts.skip(data_cursor as int), 0) == (0int, 0nat));
     }
@@ -186,6 +186,7 @@
     proof {
         let p = n - 1 - it.index@;
         if p + 1 < n {
+            assert(idx_adj(ix, self.header.index_interval as int, p + 1));
             lemma_idx_bytes_step(ix, p);
             lemma_enc_len_table((ix[p + 1].file_index - ix[p].file_index) as nat);
         }
@@ -201,7 +202,7 @@
     requires
         last_index.log_index >= start_index,
         last_index.file_index <= old(file).contents().len(),
-        old(file).contents().len() < 0x2000_0000,
+        old(file).contents().len() < 0x1_0000_0000,
         last_index.log_index - start_index < 0x1_0000_0000_0000 - 0xffff,
         ok_stream(old(file).contents().skip(last_index.file_index as int)),
         terminated(old(file).contents().skip(last_index.file_index as int)),
@@ -306,4 +307,93 @@
     proof {
         assert(write_data_step(o, *self, body));
         lemma_write_wf(o, *self, body);
+    }
+@@ LogInnerManager::strip_log_to foriter 1 it
+@@ LogInnerManager::strip_log_to spec
+    requires old(self).wf()
+    ensures r is Ok ==> (
+        if end_index >= old(self).start_index + old(self).msg_count {
+            // nothing at or above the cut: nothing changes
+            *final(self) == *old(self)
+        } else {
+            // C03: exactly the suffix is removed: the entries below the cut stay byte for byte, the end index becomes the cut
+            // (so the next append at the cut is accepted), and the invariant holds — in particular every byte behind the new
+            // cursor and every popped index byte is zero, so nothing of the removed suffix can be read back, also after a reopen
+            final(self).wf() && final(self).start_index == old(self).start_index
+            && final(self).msg_count == end_index - old(self).start_index
+            && final(self).data_file.contents().take(final(self).data_cursor as int) == old(self).data_file.contents().take(final(self).data_cursor as int)
+        }),
+@@ LogInnerManager::strip_log_to entry
+    let ghost o = *self;
+    let ghost ix = self.indexs@;
+    let ghost s0 = self.recs();
+    let ghost k0 = self.msg_count as nat;
+@@ LogInnerManager::strip_log_to before_stmt 4
+    let ghost p = choose|p: int| 0 <= p < ix.len() && index_dto == #[trigger] ix[p]
+        && ix[p].log_index <= end_index && (p + 1 < ix.len() ==> ix[p + 1].log_index > end_index)
+        && pop_index_count == ix.len() - 1 - p && file_index_len == idx_bytes_after(ix, p);
+    proof {
+        lemma_idx_area_split(ix, p);
+        lemma_idx_bytes_bound(ix, p);
+    }
+@@ LogInnerManager::strip_log_to loop 1
+    invariant
+        self.indexs@ == ix.take(ix.len() - it.index@), it.index@ <= pop_index_count, pop_index_count == ix.len() - 1 - p, 0 <= p < ix.len(),
+        self.data_file == o.data_file, self.index_file == o.index_file, self.header == o.header, self.start_index == o.start_index,
+        self.index_cursor == o.index_cursor, self.file_len == o.file_len, self.data_cursor == o.data_cursor, self.msg_count == o.msg_count,
+        self.last_term == o.last_term, self.current_index_count == o.current_index_count, self.need_seek_at_write == o.need_seek_at_write,
+        self.last_flush_index == o.last_flush_index, self.split_off_index == o.split_off_index,
+@@ LogInnerManager::strip_log_to loop 1 body_exit
+    proof { assert(self.indexs@ =~= ix.take(ix.len() - it.index@ - 1)); }
+@@ LogInnerManager::strip_log_to before_stmt 6
+    proof {
+        let a0 = o.index_file.contents();
+        let a1 = self.index_file.contents();
+        assert forall|i: int| 0 <= i < a0.len() implies #[trigger] a1[i] == (if self.index_cursor <= i < o.index_cursor { 0u8 } else { a0[i] }) by {
+            if pop_index_count > 0 && self.index_cursor <= i < o.index_cursor {
+                assert(a1.subrange(self.index_cursor as int, o.index_cursor as int)[i - self.index_cursor] == a1[i]);
+            }
+        }
+    }
+@@ LogInnerManager::strip_log_to before_stmt 7
+    let ghost jj = (ix[p].log_index - o.start_index) as nat;
+    let ghost cnt = (end_index - ix[p].log_index) as nat;
+    let ghost fi = ix[p].file_index as int;
+    let ghost suffix = o.data_file.contents().skip(fi);
+    proof {
+        assert(ix.take(p + 1) =~= self.indexs@ || pop_index_count == 0);
+        if p + 1 < ix.len() { assert(idx_adj(ix, o.header.index_interval as int, p + 1)); }
+        assert(cnt < o.header.index_interval);
+        lemma_scan_mono(s0, jj, k0);
+        lemma_scan_bounds(s0, jj);
+        assert(suffix =~= s0.skip(scan(s0, jj).0));
+        assert(jj + (k0 - jj) as nat == k0);
+        lemma_ok_prefixes_suffix(s0, jj, (k0 - jj) as nat);
+        lemma_scan_split(s0, jj, (k0 - jj) as nat);
+        assert forall|i: int| scan(suffix, (k0 - jj) as nat).0 <= i < suffix.len() implies suffix[i] == 0u8 by {
+            assert(o.data_file.contents()[i + fi] == 0u8);
+        }
+        lemma_records_then_zeros(suffix, (k0 - jj) as nat);
+        // what the scan of `cnt` records from the index entry will return
+        lemma_scan_mono(s0, (jj + cnt) as nat, k0);
+        lemma_scan_split(s0, jj, cnt);
+    }
+@@ LogInnerManager::strip_log_to before_stmt 14
+    proof {
+        let d0 = o.data_file.contents();
+        let d1 = self.data_file.contents();
+        assert forall|i: int| 0 <= i < d0.len() implies #[trigger] d1[i] == (if i >= self.data_cursor { 0u8 } else { d0[i] }) by {
+            if self.data_cursor <= i < o.data_cursor {
+                assert(d1.subrange(self.data_cursor as int, o.data_cursor as int)[i - self.data_cursor] == d1[i]);
+            } else if i >= o.data_cursor {
+                assert(d0[i] == 0u8);
+            }
+        }
+    }
+@@ LogInnerManager::strip_log_to before_tail
+    proof {
+        let k = (end_index - o.start_index) as nat;
+        assert(self.indexs@ =~= ix.take(p + 1));
+        assert(strip_step(o, *self, p, k));
+        lemma_strip_wf(o, *self, p, k);
     }
